@@ -286,7 +286,12 @@ def routing(g: int, pi: int, tail: str, ei: int, mi: int, has_app: bool, exists:
 
 
 LIFE = (['lifespan.startup', 'lifespan.shutdown'], ['lifespan.startup'], ['lifespan.shutdown'], ['lifespan.startup', 'lifespan.startup', 'lifespan.shutdown'])
-CALLBACKS = ('none', 'sync', 'async', 'sync-raises', 'async-raises')
+CALLBACKS = ('none', 'sync', 'async', 'sync-raises', 'async-raises', 'sync-base-raises', 'async-cancelled-raises')
+
+
+class _Fatal(BaseException):
+    """What a start-up hook that gives up raises (sys.exit() and KeyboardInterrupt are of this kind: not an Exception)."""
+
 
 
 def _lifespan(li, su, sd, has_app):
@@ -305,6 +310,15 @@ def _lifespan(li, su, sd, has_app):
             async def g():
                 log.append(name)
             return g
+        if kind == 'sync-base-raises':
+            def fb():
+                raise _Fatal(name)
+            return fb
+        if kind == 'async-cancelled-raises':
+            async def hc():
+                import asyncio
+                raise asyncio.CancelledError()
+            return hc
 
         async def h():
             raise RuntimeError(name)
@@ -323,8 +337,15 @@ def _lifespan(li, su, sd, has_app):
         sent.append(ev['type'])
     mw = eio_asgi.ASGIApp(types.SimpleNamespace(), other if has_app else None,
                           on_startup=mk_cb(CALLBACKS[su], 'up'), on_shutdown=mk_cb(CALLBACKS[sd], 'down'))
-    _run(mw({'type': 'lifespan'}, receive, send))
     desc = 'events %r startup=%s shutdown=%s wrapped=%s' % (LIFE[li], CALLBACKS[su], CALLBACKS[sd], has_app)
+    try:
+        _run(mw({'type': 'lifespan'}, receive, send))
+    except (Exception, _Fatal) as e:
+        return '%s: %s escaped from the application (sent %r)' % (desc, type(e).__name__, sent)
+    except BaseException as e:      # noqa  (asyncio.CancelledError is a BaseException)
+        if type(e).__name__ == 'CancelledError':
+            return '%s: CancelledError escaped from the application (sent %r)' % (desc, sent)
+        raise
     if has_app and CALLBACKS[su] == 'none' and CALLBACKS[sd] == 'none':
         if forwarded != ['lifespan'] or sent:
             return '%s: lifespan not passed to the wrapped app (forwarded %r, sent %r)' % (desc, forwarded, sent)
